@@ -99,6 +99,11 @@ def gen_ip_lines(rng, fcfg, nlines, near=True):
     pres = ipgen.v4nets(fcfg.get("pa"))
     pool4 = [rng.getrandbits(32) for _ in range(6)]
     pool6 = [rng.getrandbits(128) for _ in range(3)] + [(0x20010DB8 << 96) | rng.getrandbits(32), 1, 0]
+    # addresses with structure inside: a MAC-derived interface identifier (xxxx:xxff:fexx:xxxx), 6to4 (2002:<IPv4>::/48),
+    # Teredo, NAT64 - to netconan they are 128 bits like any other
+    pool6 += [(rng.getrandbits(64) << 64) | (rng.getrandbits(24) << 40) | (0xFFFE << 24) | rng.getrandbits(24),
+              (0x2002 << 112) | (rng.getrandbits(32) << 80) | rng.getrandbits(80),
+              (0x20010000 << 96) | rng.getrandbits(96), (0x0064FF9B << 96) | rng.getrandbits(32)]
     # trap originals: addresses whose IMAGE is special (mask-shaped IPv4 values; IPv6 link-local, multicast,
     # IPv4-mapped ...) - found with the inverse on fresh anonymizers
     try:
